@@ -13,7 +13,7 @@ func init() {
 		ID: "C05", Level: "exploration",
 		Rule: "one case = one history of 3..12 data-changing statements (INSERT values/subset of columns/select, UPDATE single- and multi-table, DELETE single- and multi-table, REPLACE USING, ALTER TABLE ADD [DEFAULT] FIRST/LAST/BEFORE/AFTER, DROP, RENAME) over a file table, a second file table and a temporary table, executed statement by statement in one in-process transaction; after EVERY statement SELECT * of every table and the reported affected-row count are compared with an executable table model (ordered rows, ordered columns), and after the final COMMIT the reloaded file is compared too. " +
 			"non-trivial = at least 3 statements changed a table and all steps were compared; distinct = history digest. Every 6th case uses 160..700 rows and --cpu 2..8; big cases are executed twice.",
-		Quick: 1500, Thorough: 60000, FloorQuick: 1000, FloorThorough: 40000,
+		Quick: 1500, Thorough: 150000, FloorQuick: 1000, FloorThorough: 100000,
 		Assumptions: []string{"values written by the generated statements are string literals, NULL or copies of cells, so the model needs no arithmetic; predicates are evaluated by the C06 reference ladder on its specified region",
 			"replacement sets with duplicate keys among themselves and multi-table updates matching a target row more than once are not generated (unspecified)"},
 		Setup: func(w *core.Worker) { core.HermeticProcess(w.Work) },
